@@ -735,9 +735,12 @@ func (h *hintMgr) ClearChunk(chunkID int) {
 //        | B            => nil, true // should not happen when used in gc
 func (h *hintMgr) getCollisionGC(ki *KeyInfo) (it *HintItem, ChunkID int, collision bool) {
 	it, collision = h.collisions.get(ki.KeyHash, ki.StringKey)
-	if !collision {
-		// only in mem, in new hints buffers after gc begin
+	if !collision || it == nil {
+		// only in mem, in new hints buffers after gc begin;
+		// also a key whose hash is in the table while the key itself is not (yet): still a collision
+		known := collision
 		it, ChunkID, collision = h.getItemCollision(ki.KeyHash, ki.StringKey)
+		collision = collision || known
 	} else {
 		ChunkID = it.Pos.ChunkID
 	}
